@@ -173,6 +173,8 @@ def op_from_json(op):
     cp = lambda x: tuple(x) if isinstance(x, list) else x
     if op[0] == 'post':
         b = op[2]
+        if b[0] == 'lenzero':
+            return ('post', op[1], ('lenzero', [cp(x) for x in b[1]], b[2]))
         return ('post', op[1], ('pk', [cp(x) for x in b[1]]) if b[0] == 'pk' else tuple(b))
     if op[0] == 'frame':
         f = op[2]
